@@ -154,12 +154,11 @@ static std::string run_http(Toks &t)
 	std::vector<booster::shared_ptr<cppcms::application_specific_pool> > pools;
 	for(int i=0;i<n;i++) {
 		t.expect("{");
-		bool ph,ps,pp;
-		booster::regex h=rx(t.next(),ph), s=rx(t.next(),ps), p=rx(t.next(),pp);
+		std::string htok=t.next(), stok=t.next(), ptok=t.next();
 		int g=t.num();
 		std::string sel=t.next();
 		t.expect("}");
-		mps.push_back(cppcms::mount_point(sel=="p"?cppcms::mount_point::match_path_info:cppcms::mount_point::match_script_name,h,s,p,g));
+		mps.push_back(make_mp(htok,stok,ptok,g,sel));
 		AppD d=parse_app(t);
 		pools.push_back(booster::shared_ptr<cppcms::application_specific_pool>(new HttpPool(d)));
 	}
@@ -190,6 +189,7 @@ static std::string run_http(Toks &t)
 	return out.str();
 }
 
+#ifndef C20_HTTP_NO_MAIN
 int main()
 {
 	signal(SIGPIPE,SIG_IGN);
@@ -209,3 +209,4 @@ int main()
 	g_server.stop();
 	return 0;
 }
+#endif
